@@ -15,6 +15,7 @@
  */
 #pragma once
 
+#include <unifex/detail/verif_hooks.hpp>
 #include <unifex/blocking.hpp>
 #include <unifex/continuations.hpp>
 #include <unifex/get_stop_token.hpp>
@@ -224,6 +225,7 @@ struct _op<Receiver, Senders...>::type {
 
   void request_stop() noexcept {
     // mark callback as running (own deliver_result)
+    UNIFEX_VERIF_POINT(201);
     if (refCount_.fetch_add(1, std::memory_order_relaxed) == 0) {
       // deliver_result already called
       return;
@@ -235,12 +237,14 @@ struct _op<Receiver, Senders...>::type {
 
 private:
   void element_complete() noexcept {
+    UNIFEX_VERIF_POINT(202);
     if (refCount_.fetch_sub(1, std::memory_order_acq_rel) == 1) {
       deliver_result();
     }
   }
 
   void deliver_result() noexcept {
+    UNIFEX_VERIF_POINT(203);
     stopCallback_.destruct();
 
     if (get_stop_token(receiver_).stop_requested()) {
